@@ -28,6 +28,9 @@ def settings(tier):
                     promise = (op is not None) and not optional_var
                     out.append(("gen_simplify_multiple_terms",
                                 dict(num_terms=nt, op=op, optional_var=optional_var, noise_terms=noise_terms), promise))
+    for nt, scale in ((3, 0.9), (4, 0.875), (6, 0.5), (5, 0.99), (9, 0.7)):
+        out.append(("gen_simplify_multiple_terms", dict(num_terms=nt, op="+", inner_terms_scaling=scale), True))
+        out.append(("gen_simplify_multiple_terms", dict(num_terms=nt, op="-", inner_terms_scaling=scale, noise_terms=1), True))
     for (lo, hi) in ((16, 26), (2, 3), (3, 6), (25, 26)):
         for easy in (True, False):
             for powers in (False, True):
@@ -83,7 +86,30 @@ def independent_like_pair(text):
     return len(keys) != len(set(keys))
 
 
-def judge_problem(result, promise):
+SINGLE_PAIR = ("gen_combine_terms_in_place", "gen_commute_haystack", "gen_move_around_blockers_one")
+
+
+def term_letter(s):
+    k = term_key(s)
+    return k[0] if isinstance(k, tuple) else None
+
+
+def focus_variable_reused(text):
+    """generators that hide ONE pair of like terms among distractors draw the distractors' variables with the
+    focus variable excluded: the letter of the like pair must not occur in any other term"""
+    ref = refgram.parse(reflex.lex(text))
+    adds = addends(ref)
+    keys = [term_key(a) for a in adds]
+    pairs = {k for k in keys if isinstance(k, tuple) and keys.count(k) >= 2}
+    for k in pairs:
+        letter = k[0]
+        others = [a for a, kk in zip(adds, keys) if kk != k and letter in SG.variables(a)]
+        if others:
+            return f"focus variable {letter!r} also occurs in distractor {SG.show(others[0])}"
+    return None
+
+
+def judge_problem(result, promise, gen=None):
     """[(kind, detail)]"""
     from mathy_core.parser import ExpressionParser
     from mathy_core.util import has_like_terms
@@ -110,6 +136,13 @@ def judge_problem(result, promise):
             ind = None
         if ind is False:
             out.append(("promised-like-terms-absent", f"{text!r}: no two addends share variable and exponent"))
+        elif gen in SINGLE_PAIR:
+            try:
+                reuse = focus_variable_reused(text)
+            except Exception:  # noqa
+                reuse = None
+            if reuse:
+                out.append(("distractor-reuses-the-focus-variable", f"{text!r}: {reuse}"))
         else:
             try:
                 if not has_like_terms(tree):
@@ -153,7 +186,7 @@ def explore_setting(acc, gen, kwargs, promise, pretty, policy, bound, cap):
                                  "choices": [t[2] for t in orc.trace], "bound": bound, "cap": cap}, f"{describe(gen, kwargs, pretty)}: {val!r}"[:300])
         else:
             acc.key(hash(val[0]) if isinstance(val, tuple) else 0)
-            for kind, detail in judge_problem(val, promise):
+            for kind, detail in judge_problem(val, promise, gen):
                 acc.violation(f"{kind}|{gen}", {"kind": "gen", "gen": gen, "kwargs": kwargs, "pretty": pretty, "policy": policy,
                                                 "choices": [t[2] for t in orc.trace], "bound": bound, "cap": cap},
                               f"{describe(gen, kwargs, pretty)}: {detail}")
@@ -247,6 +280,41 @@ def check_rand_vars(acc, bound):
             CH.explore(execute, bound, 20000)
 
 
+def check_term_templates(acc):
+    """requested term templates are pairwise distinct and unlike every excluded template"""
+    from mathy_core import problems as P
+
+    T = P.MathyTermTemplate
+    cases = [(3, None, False, 0.5), (6, [T("x", 2), T("y", 2)], True, 1.0), (4, [T("x", None)], True, 0.0), (5, [T("a", 2), T("b", 3)], False, 1.0),
+             (6, None, True, 0.5), (3, [T("x", 2), T("y", 2), T("z", 2)], True, 1.0)]
+    for n, excl, common, prob in cases:
+        for policy in POLICIES:
+            def execute(prefix):
+                orc = CH.Oracle(prefix, policy)
+                CH.install(P)
+                got = err = None
+                try:
+                    with CH.owned(orc):
+                        got = P.get_rand_term_templates(n, excl, common, prob)
+                except CH.Divergence:
+                    raise
+                except Exception as e:  # noqa
+                    err = e
+                acc.count("executions")
+                acc.count("term_template_executions")
+                if got is not None:
+                    keys = [P.mathy_term_string(variable=t.variable, exponent=t.exponent) for t in got]
+                    bad = [P.mathy_term_string(variable=t.variable, exponent=t.exponent) for t in (excl or [])]
+                    case = {"kind": "templates", "choices": [t[2] for t in orc.trace]}
+                    if len(set(keys)) != len(keys) or len(keys) != n:
+                        acc.violation("get_rand_term_templates-not-distinct", case, f"{keys}")
+                    if set(keys) & set(bad):
+                        acc.violation("get_rand_term_templates-returns-excluded-template", case, f"{sorted(set(keys) & set(bad))} of {keys}, excluded {bad}")
+                return orc
+
+            CH.explore(execute, 2, 6000)
+
+
 def check_split(acc):
     from mathy_core import problems as P
 
@@ -291,7 +359,7 @@ def conformance(acc, seeds):
             acc.violation("harness:conformance-mismatch", {"kind": "conf", "seed": seed}, f"{describe(gen, kwargs, pretty)} seed {seed}: {v1!r} vs {v2!r}")
         # real-seed outputs are judged too (they are executions of the implementation)
         if s1 == "ok":
-            for kind, detail in judge_problem(v1, sett[seed % len(sett)][2]):
+            for kind, detail in judge_problem(v1, sett[seed % len(sett)][2], gen):
                 acc.violation(f"{kind}|{gen}", {"kind": "seed", "seed": seed}, f"seed {seed} {describe(gen, kwargs, pretty)}: {detail}")
         else:
             acc.violation(f"generator-raises:{type(v1).__name__}|{gen}|{str(v1)[:60]}", {"kind": "seed", "seed": seed},
@@ -311,6 +379,7 @@ def _work(task):
     elif kind == "vars":
         check_rand_vars(acc, task[1])
         check_rand_vars_starved(acc)
+        check_term_templates(acc)
         check_split(acc)
     else:
         conformance(acc, task[1])
@@ -401,13 +470,15 @@ def _replay_direct(case):
         if status == "raise":
             return [(f"generator-raises:{type(val).__name__}|{case['gen']}|{str(val)[:60]}", repr(val))]
         promise = next((p for g, kw, p in settings("quick") if g == case["gen"] and kw == case["kwargs"]), False)
-        return [(f"{kd}|{case['gen']}", d) for kd, d in judge_problem(val, promise)]
+        return [(f"{kd}|{case['gen']}", d) for kd, d in judge_problem(val, promise, case["gen"])]
     if k in ("seed", "conf"):
         a = Acc()
         conformance(a, [case["seed"]])
         return [(c, e["examples"][0]["detail"]) for c, e in a.viol.items()]
     a = Acc()
-    if k == "rand_vars_starved":
+    if k == "templates":
+        check_term_templates(a)
+    elif k == "rand_vars_starved":
         check_rand_vars_starved(a)
     elif k == "rand_vars":
         check_rand_vars(a, 2)
